@@ -27,7 +27,8 @@ def run(prog, tier) -> Result:
     res.trusted = ["oracle/temperature.json", "exact Decimal/Fraction arithmetic"]
     cr = CaseRunner(prog, res, max_depth=8 if tier == "quick" else 12)
     tc = prog.cls("TableConverter")
-    gf = prog.method("TableConverter", "_get_factor")
+    from ..anchors import table_lookup_method
+    gf = table_lookup_method(prog)
 
     def setup_tc(c):
         c.new_type("T", **FLAVORS["noref"])
